@@ -201,6 +201,13 @@ func c20DirectRun(c c20DCase, v c20Variants) (impl string, line string) {
 		line = "robust timeparse " + a[0] + " " + a[1]
 		_, err := time.Parse(layout, unhex(a[1]))
 		impl = strconv.FormatBool(err == nil)
+	case "queryunescape":
+		line = "robust queryunescape " + a[0]
+		if u, err := url.QueryUnescape(unhex(a[0])); err != nil {
+			impl = "err"
+		} else {
+			impl = "ok " + hexArg(u)
+		}
 	case "trimspace":
 		line = "robust trimspace " + a[0]
 		impl = hexArg(strings.TrimSpace(unhex(a[0])))
@@ -476,7 +483,7 @@ func c20GenUnsignedStream(r *lib.Rand) string {
 }
 
 func c20DirectGen(r *lib.Rand) c20DCase {
-	switch k := r.Intn(24); {
+	switch k := r.Intn(26); {
 	case k < 3:
 		s := c20Plain(r.Pick(c20Pools["copysrc"]))
 		cl := "copysource:pool"
@@ -490,7 +497,8 @@ func c20DirectGen(r *lib.Rand) c20DCase {
 		if r.Chance(60) {
 			var b strings.Builder
 			for n := r.Intn(9); n > 0; n-- {
-				b.WriteString(r.Pick([]string{"a", "b", "=", "&", "%", strings.Repeat("k", 128), strings.Repeat("k", 129), strings.Repeat("v", 256), strings.Repeat("v", 257)}))
+				b.WriteString(r.Pick([]string{"a", "b", "=", "&", "%", "%20", "%2", "%zz", "%3D", "%26", "%25", "+", "%00", "%ff", "%C3%A9", strings.Repeat("k", 128), strings.Repeat("k", 129), strings.Repeat("v", 256), strings.Repeat("v", 257),
+					strings.Repeat("%6b", 128), strings.Repeat("%6b", 129), strings.Repeat("+", 256), strings.Repeat("%76", 257)}))
 			}
 			s, cl = b.String(), "tags:grammar"
 		}
@@ -537,7 +545,13 @@ func c20DirectGen(r *lib.Rand) c20DCase {
 		return c20DCase{"trimspace", []string{hexArg(b.String())}, "trimspace"}
 	case k < 21:
 		return c20DCase{"acp", []string{c20GenGrants(r), r.Pick([]string{"nil", "noid", "-", hexArg("x")})}, "acp"}
-	case k < 22:
+	case k < 23:
+		var b strings.Builder
+		for n := r.Intn(8); n > 0; n-- {
+			b.WriteString(r.Pick([]string{"a", "Z", "0", "+", "%", "%2", "%20", "%2B", "%zz", "%fF", "%g0", "%0g", "%%", "%25", "=", "&", "\xff", "é", " ", "%00", "%"}))
+		}
+		return c20DCase{"queryunescape", []string{hexArg(b.String())}, "queryunescape"}
+	case k < 24:
 		return c20DCase{"unsignedread", []string{hexArg(c20GenUnsignedStream(r))}, "unsignedread"}
 	default:
 		p := r.Pick(c20PathPool)
@@ -605,8 +619,11 @@ func c20Direct(a lib.Args, res *lib.Result) error {
 		for _, s := range []string{"", "/", "//", "b", "b/k", "/b/k", "?versionId=", "/?versionId=x", "b/k?versionId=", "b/k?versionId=v?versionId=w"} {
 			cases = append(cases, c20DCase{"copysource", []string{hexArg(s)}, "corpus"})
 		}
-		for _, s := range []string{"", "a", "a=b", "a=b=c", "&", "a=b&"} {
+		for _, s := range []string{"", "a", "a=b", "a=b=c", "&", "a=b&", "t2=a%20b", "a+b=c+d", "k=%", "k=%2", "%zz=v", "k%3D=v%26", strings.Repeat("%6b", 128) + "=v", strings.Repeat("%6b", 129) + "=v", "k=" + strings.Repeat("+", 257)} {
 			cases = append(cases, c20DCase{"tags", []string{hexArg(s)}, "corpus"})
+		}
+		for _, s := range []string{"", "%", "%2", "%20", "%zz", "+", "a%2Bb+c", "%25%", "%FF%ff"} {
+			cases = append(cases, c20DCase{"queryunescape", []string{hexArg(s)}, "corpus"})
 		}
 		for _, s := range c20Pools["authz"] {
 			cases = append(cases, c20DCase{"auth", []string{hexArg(c20Plain(s))}, "corpus"})
